@@ -163,6 +163,20 @@ def dense_evolution(M, psi0_vec, t):
     return ED, LA.expm(-1.j * t * H) @ psi0_vec, H
 
 
+def make_state(M, case):
+    """Initial state of a dense case: a product state, or (case['fullrank']) a normalised state of maximal bond
+    dimension obtained by scrambling the product state (single-site TDVP cannot grow the bond dimension, so only
+    there its evolution is exact up to the time-step error)."""
+    psi = make_psi(M, case['state'])
+    if case.get('fullrank'):
+        from tenpy.algorithms.tebd import TEBDEngine
+        TEBDEngine(psi, M, {'order': 2, 'dt': 0.25, 'N_steps': 6, 'max_trunc_err': None,
+                            'trunc_params': {'chi_max': 64, 'svd_min': 1e-14, 'trunc_cut': None}}).run()
+        psi.norm = 1.
+        psi.canonical_form()
+    return psi
+
+
 def run_dense(case):
     """Evolve with a real engine (no effective truncation) and compare with dense exp(-iHt)|psi0>."""
     from tenpy.algorithms.exact_diag import ExactDiag
@@ -170,13 +184,13 @@ def run_dense(case):
     M = make_model(case['model'], case['engine'].startswith('TimeDependent'))
     ED = ExactDiag(M)
     ED.build_full_H_from_mpo()
-    psi = make_psi(M, case['state'])
-    v0 = ED.mps_to_full(psi).to_ndarray()
+    psi = make_state(M, case)
+    v0 = ED.mps_to_full(psi).to_ndarray() * psi.norm
     H = ED.full_H.to_ndarray()
     out = {'results': []}
     E0 = float(np.real(np.vdot(v0, H @ v0)))
     for ticks, n_total in case['dts']:
-        psi = make_psi(M, case['state'])
+        psi = make_state(M, case)
         opts = dict(case['options'])
         dt = ticks * TICK
         opts['dt'] = (-1.j * dt) if case.get('imag') else dt
@@ -197,10 +211,8 @@ def run_dense(case):
             vex = LA.expm(-1.j * T * H) @ v0
         v = ED.mps_to_full(psi).to_ndarray() * psi.norm
         if case.get('imag'):
-            # compare directions (the engine may renormalise) and the norm bookkeeping separately
-            vn = v / np.linalg.norm(v)
-            ven = vex / np.linalg.norm(vex)
-            err = float(np.linalg.norm(vn - ven * np.vdot(ven, vn) / abs(np.vdot(ven, vn))))
+            # preserve_norm=False: psi.norm * |psi> is exp(-tau H)|psi0> including its norm (relative error)
+            err = float(np.linalg.norm(v - vex) / np.linalg.norm(vex))
         else:
             err = float(np.linalg.norm(v - vex))
         et = complex(eng.evolved_time)
@@ -210,8 +222,98 @@ def run_dense(case):
             'evolved_re': et.real, 'evolved_im': et.imag, 'T': float(dt * done),
             'q0': q0, 'q1': [int(x) for x in psi.get_total_charge()],
             'trunc_eps': float(eng.trunc_err.eps), 'norm_test': float(np.max(np.abs(psi.norm_test()))),
+            'norm_ratio': float(np.linalg.norm(v) / np.linalg.norm(vex)), 'chi': [int(c) for c in psi.chi],
         })
     return out
+
+
+def run_gs(case):
+    """The dedicated imaginary-time path TEBDEngine.run_GS(): count the steps it performs (calls of evolve /
+    update_imag with their N_steps and the delta_tau of the preceding calc_U) and report the advertised
+    evolved_time, the state against dense exp(-tau H)|psi0> and the charges."""
+    from tenpy.algorithms.exact_diag import ExactDiag
+    import scipy.linalg as LA
+    M = make_model(case['model'])
+    ED = ExactDiag(M)
+    ED.build_full_H_from_mpo()
+    H = ED.full_H.to_ndarray()
+    psi = make_state(M, case)
+    v0 = ED.mps_to_full(psi).to_ndarray() * psi.norm
+    q0 = [int(x) for x in psi.get_total_charge()]
+    opts = dict(case['options'])
+    opts['delta_tau_list'] = [t * TICK for t in case['tau_ticks']]
+    eng = get_engine_class(case['engine'])(psi, M, opts)
+    steps = []   # [delta_tau ticks, N_steps, via]
+    cur = [None]
+    orig_calc, orig_evolve, orig_imag = eng.calc_U, eng.evolve, eng.update_imag
+
+    def calc_U(order, delta_t, type_evo='real', *a, **k):
+        cur[0] = (float(delta_t) / TICK, type_evo)
+        return orig_calc(order, delta_t, type_evo, *a, **k)
+
+    def evolve(N_steps, dt):
+        steps.append([cur[0][0], int(N_steps), 'evolve', cur[0][1]])
+        return orig_evolve(N_steps, dt)
+
+    def update_imag(N_steps, *a, **k):
+        steps.append([cur[0][0], int(N_steps), 'update_imag', cur[0][1]])
+        return orig_imag(N_steps, *a, **k)
+    eng.calc_U, eng.evolve, eng.update_imag = calc_U, evolve, update_imag
+    eng.run_GS()
+    n_gs = len(steps)
+    tau = sum(s[0] * s[1] for s in steps) * TICK
+    vex = LA.expm(-tau * H) @ v0
+    v = ED.mps_to_full(psi).to_ndarray()
+    vn, ven = v / np.linalg.norm(v), vex / np.linalg.norm(vex)
+    ov = np.vdot(ven, vn)
+    if case.get('then_real'):
+        # a mixed history: real-time run() calls on the same engine after the imaginary-time ones
+        for ticks, n in case['then_real']:
+            eng.options['dt'] = ticks * TICK
+            eng.options['N_steps'] = n
+            eng.run()
+    et = complex(eng.evolved_time)
+    return {'steps': steps, 'n_gs': n_gs, 'tau': float(tau), 'evolved_re_ticks': et.real / TICK, 'evolved_im_ticks': et.imag / TICK, 'evolved_re': et.real, 'evolved_im': et.imag,
+            'dir_err': float(np.linalg.norm(vn - ven * ov / abs(ov))), 'q0': q0,
+            'q1': [int(x) for x in psi.get_total_charge()], 'chi': [int(c) for c in psi.chi],
+            'E': float(np.real(np.vdot(vn, H @ vn))), 'E_exact': float(np.real(np.vdot(ven, H @ ven))),
+            'E0': float(np.real(np.vdot(v0, H @ v0) / np.vdot(v0, v0)))}
+
+
+def run_purif(case):
+    """PurificationTEBD.run_imaginary(beta) from the infinite-temperature state: advertised evolved_time against
+    -i * N * dt with N = round(beta/dt) counted from the update_imag call, and the energy of the purified state
+    against the dense thermal expectation value Tr(H exp(-2 tau H)) / Z."""
+    from tenpy.algorithms.purification import PurificationTEBD
+    from tenpy.networks.purification_mps import PurificationMPS
+    from tenpy.algorithms.exact_diag import ExactDiag
+    M = make_model(case['model'])
+    ED = ExactDiag(M)
+    ED.build_full_H_from_mpo()
+    H = ED.full_H.to_ndarray()
+    w = np.linalg.eigvalsh(H)
+    psi = PurificationMPS.from_infiniteT(M.lat.mps_sites(), bc='finite')
+    dt = case['dt_ticks'] * TICK
+    eng = PurificationTEBD(psi, M, {'dt': dt, 'trunc_params': {'chi_max': 256, 'svd_min': 1e-14, 'trunc_cut': None},
+                                    'disentangle': None})
+    calls = []
+    orig = eng.update_imag
+
+    def update_imag(N_steps, *a, **k):
+        calls.append(int(N_steps))
+        return orig(N_steps, *a, **k)
+    eng.update_imag = update_imag
+    out = []
+    tau = 0.
+    for beta_ticks in case['beta_ticks']:
+        eng.run_imaginary(beta_ticks * TICK)
+        tau = sum(calls) * dt
+        et = complex(eng.evolved_time)
+        p = np.exp(-2 * tau * (w - w[0]))
+        out.append({'N': list(calls), 'tau': float(tau), 'evolved_re': et.real, 'evolved_im': et.imag,
+                    'E': float(np.sum(M.bond_energies(psi))), 'E_thermal': float(np.sum(w * p) / np.sum(p)),
+                    'E_infT': float(np.mean(w))})
+    return {'results': out}
 
 
 def run_merge(case):
@@ -268,7 +370,7 @@ def run_merge(case):
 
 def main():
     payload = json.load(open(sys.argv[1]))
-    f = {'schedule': run_schedule, 'accounting': run_accounting, 'coverage': run_coverage, 'dense': run_dense, 'merge': run_merge}[payload['kind']]
+    f = {'schedule': run_schedule, 'accounting': run_accounting, 'coverage': run_coverage, 'dense': run_dense, 'merge': run_merge, 'run_gs': run_gs, 'purif': run_purif}[payload['kind']]
     res = []
     for c in payload['cases']:
         try:
